@@ -103,7 +103,7 @@ static std::string *g_death_spec = nullptr;
 static unsigned long long g_death_run = 0;
 static int g_death_fd = 1;
 static void death_cb() {
-  if (!g_death_spec) return;
+  if (!g_death_spec) return; // also: forked reference children clear this
   size_t tl; const uint32_t *t = sim_trace(&tl);
   std::string tr = trace_str(t, tl);
   char head[256];
